@@ -193,19 +193,29 @@ pub fn unbounded_async<T: Send>() -> (UnboundedAsyncSender<T>, UnboundedAsyncRec
 // Clone (Sync)
 impl<T: Send> Clone for Sender<T> {
   fn clone(&self) -> Self {
-    self.shared.internal.lock().sender_count += 1;
+    // A clone of a handle that was itself closed is closed too and is not counted:
+    // it must not resurrect a disconnected channel.
+    let closed = self.closed.load(Ordering::Acquire);
+    if !closed {
+      self.shared.internal.lock().sender_count += 1;
+    }
     Sender {
       shared: Arc::clone(&self.shared),
-      closed: AtomicBool::new(false),
+      closed: AtomicBool::new(closed),
     }
   }
 }
 impl<T: Send> Clone for Receiver<T> {
   fn clone(&self) -> Self {
-    self.shared.internal.lock().receiver_count += 1;
+    // A clone of a handle that was itself closed is closed too and is not counted:
+    // it must not resurrect a disconnected channel.
+    let closed = self.closed.load(Ordering::Acquire);
+    if !closed {
+      self.shared.internal.lock().receiver_count += 1;
+    }
     Receiver {
       shared: Arc::clone(&self.shared),
-      closed: AtomicBool::new(false),
+      closed: AtomicBool::new(closed),
     }
   }
 }
@@ -213,19 +223,29 @@ impl<T: Send> Clone for Receiver<T> {
 // Clone (Async)
 impl<T: Send> Clone for AsyncSender<T> {
   fn clone(&self) -> Self {
-    self.shared.internal.lock().sender_count += 1;
+    // A clone of a handle that was itself closed is closed too and is not counted:
+    // it must not resurrect a disconnected channel.
+    let closed = self.closed.load(Ordering::Acquire);
+    if !closed {
+      self.shared.internal.lock().sender_count += 1;
+    }
     AsyncSender {
       shared: Arc::clone(&self.shared),
-      closed: AtomicBool::new(false),
+      closed: AtomicBool::new(closed),
     }
   }
 }
 impl<T: Send> Clone for AsyncReceiver<T> {
   fn clone(&self) -> Self {
-    self.shared.internal.lock().receiver_count += 1;
+    // A clone of a handle that was itself closed is closed too and is not counted:
+    // it must not resurrect a disconnected channel.
+    let closed = self.closed.load(Ordering::Acquire);
+    if !closed {
+      self.shared.internal.lock().receiver_count += 1;
+    }
     AsyncReceiver {
       shared: Arc::clone(&self.shared),
-      closed: AtomicBool::new(false),
+      closed: AtomicBool::new(closed),
       state: AtomicU8::new(STATE_WAITING),
       is_registered: false,
     }
@@ -408,11 +428,12 @@ impl<T: Send> Sender<T> {
   /// This is a zero-cost conversion. The `Drop` implementation of the original
   /// `Sender` is not called.
   pub fn to_async(self) -> AsyncSender<T> {
+    let closed = self.closed.load(Ordering::Acquire);
     let shared = unsafe { std::ptr::read(&self.shared) };
     mem::forget(self);
     AsyncSender {
       shared,
-      closed: AtomicBool::new(false),
+      closed: AtomicBool::new(closed),
     }
   }
 
@@ -513,6 +534,9 @@ impl<T: Send> Receiver<T> {
   /// - `Err(RecvErrorTimeout::Timeout)` if the timeout is reached.
   /// - `Err(RecvErrorTimeout::Disconnected)` if the channel is disconnected.
   pub fn recv_timeout(&self, timeout: std::time::Duration) -> Result<T, RecvErrorTimeout> {
+    if self.closed.load(Ordering::Relaxed) {
+      return Err(RecvErrorTimeout::Disconnected);
+    }
     sync_impl::recv_timeout_sync(self, timeout)
   }
 
@@ -635,11 +659,12 @@ impl<T: Send> Receiver<T> {
   /// This is a zero-cost conversion. The `Drop` implementation of the original
   /// `Receiver` is not called.
   pub fn to_async(self) -> AsyncReceiver<T> {
+    let closed = self.closed.load(Ordering::Acquire);
     let shared = unsafe { std::ptr::read(&self.shared) };
     mem::forget(self);
     AsyncReceiver {
       shared,
-      closed: AtomicBool::new(false),
+      closed: AtomicBool::new(closed),
       state: AtomicU8::new(STATE_WAITING),
       is_registered: false,
     }
@@ -829,11 +854,12 @@ impl<T: Send> AsyncSender<T> {
   /// This is a zero-cost conversion. The `Drop` implementation of the original
   /// `AsyncSender` is not called.
   pub fn to_sync(self) -> Sender<T> {
+    let closed = self.closed.load(Ordering::Acquire);
     let shared = unsafe { std::ptr::read(&self.shared) };
     mem::forget(self);
     Sender {
       shared,
-      closed: AtomicBool::new(false),
+      closed: AtomicBool::new(closed),
     }
   }
 
@@ -1050,11 +1076,12 @@ impl<T: Send> AsyncReceiver<T> {
           .retain(|w| w.state != state_ptr);
       }
     }
+    let closed = self.closed.load(Ordering::Acquire);
     let shared = unsafe { std::ptr::read(&self.shared) };
     mem::forget(self); // AtomicU8 has no destructor; safe to forget.
     Receiver {
       shared,
-      closed: AtomicBool::new(false),
+      closed: AtomicBool::new(closed),
     }
   }
 
